@@ -234,6 +234,9 @@ class C15(Property):
         for srv in (0, 1, 2):
             sops += [["populate"], ["fault", srv, 1], ["del", 0, list(range(10))], ["snap"], ["fault", srv, 0], ["tick"],
                      ["snap"], ["tick"]]
+        # the context of the Del is already cancelled: no node can send its DEL, every node retries its own keys
+        sops += [["populate"], ["delx", 0, list(range(10))], ["snap"], ["tick"], ["snap"], ["delx", 0, [3]], ["delx", 0, []],
+                 ["tick"], ["tick"]]
         sops += [["populate"], ["fault", 1, 1], ["del", 0, [0, 1, 2, 3, 4, 5]], ["del", 0, [6]], ["tick"], ["snap"],
                  ["fault", 1, 0]] + [["tick"]] * 5 + [["snap"], ["del", 0, []], ["del", 0, [7, 7, 8]], ["snap"]]
         res.append(self._script([20101, 20102, 20103],
@@ -329,6 +332,14 @@ class C15(Property):
                 for _ in range(rng.randint(3, 10)):
                     sops.append(some_del(i, False) if rng.random() < 0.25 else single(rng.randrange(len(insts))))
                 continue
+            if rng.random() < 0.25:
+                # a Del whose context is already cancelled: nothing is sent; cache nodes retry a tick later
+                d = some_del(i, False)
+                sops += [["populate"], ["delx", i, d[2]]]
+                if rng.random() < 0.5:
+                    sops.append(some_del(rng.randrange(len(insts)), False))
+                sops += [["snap"], ["tick"], ["snap"]]
+                continue
             # a Del under an injected fault, with the retries that follow
             sv = rng.choice([n[0] for n in insts[i]["nodes"]])
             d = some_del(i, True)
@@ -405,8 +416,8 @@ class C15(Property):
         for o in case["sops"]:
             if o[0] == "op":
                 ops.append("CDel %d []" % o[1] if o[2] == "isnf" else "CSingle %d %d" % (o[1], o[3]))
-            elif o[0] == "del":
-                ops.append("CDel %d %s" % (o[1], clist(["%d" % q for q in o[2]])))
+            elif o[0] in ("del", "delx"):
+                ops.append("%s %d %s" % ("CDel" if o[0] == "del" else "CDelX", o[1], clist(["%d" % q for q in o[2]])))
             elif o[0] == "fault":
                 ops.append("CFault %d %s" % (o[1], "true" if o[2] else "false"))
             else:
@@ -620,10 +631,10 @@ class C15(Property):
             chunk //= 2
         # fewer keys in a multi-key Del
         for i, o in enumerate(ops):
-            if o[0] == "del" and len(o[2]) > 2:
+            if o[0] in ("del", "delx") and len(o[2]) > 2:
                 for q in range(len(o[2])):
                     c = dict(case)
-                    c["sops"] = ops[:i] + [["del", o[1], o[2][:q] + o[2][q + 1:]]] + ops[i + 1:]
+                    c["sops"] = ops[:i] + [[o[0], o[1], o[2][:q] + o[2][q + 1:]]] + ops[i + 1:]
                     res.append(c)
         return res[:400]
 
@@ -662,8 +673,10 @@ class C15(Property):
                     fs.append("api:%s.del%s" % (case["insts"][o[1]]["kind"], "N" if len(o[2]) > 1 else str(len(o[2]))))
                     if faulted:
                         fs.append("script_del_under_fault")
+                elif o[0] == "delx":
+                    fs.append("api:%s.delctx_cancelled" % case["insts"][o[1]]["kind"])
                 elif o[0] == "fault":
-                    faulted = bool(o[2]) or faulted and False
+                    faulted = bool(o[2])
                 elif o[0] == "tick" and row:
                     fs.append("script_retry_fired")
                 elif o[0] == "snap":
